@@ -141,6 +141,8 @@ def reroute_harness(ctx: Ctx):
 
     spec = LoopSpec(invariant=goals, modifies=("op",), heap_modifies=[("Operation", "variables"), ("Operation", "nvars")], at_iteration=unfold)
     spec.assume_invariant = hyps
+    # every weak reference held by source._ops is visited
+    spec.expect_iterable = (m, None, lambda got, j: z3.And(to_z3(got.ref) == OPS[j], to_z3(got.alive) == ALIVE[j]) if isinstance(got, WeakRefVal) else z3.BoolVal(False))
     cfg.loop_specs[(f"{DG}:reroute_ops_through", 0)] = spec
     f = interp.global_lookup(interp.module(DG), "reroute_ops_through")
     meta = dict(function=f"{DG}:reroute_ops_through")
@@ -180,6 +182,10 @@ def mirror_harness(ctx: Ctx):
 
         def setattr(self, interp_, o, name, v):
             if name == "__dict__":
+                if isinstance(v, DictView):
+                    # the attribute dictionary of another tensor itself: the two tensors would share every later attribute write
+                    ctx.oblige("C04.mirror.dict_is_a_fresh_copy", False, function=f"{DG}:mirror_tensor", note="target.__dict__ is source.__dict__ (aliased), not a copy")
+                    v = v.copy()
                 if not isinstance(v, dict) or set(v) != set(all_fields):
                     raise Unsupported("__dict__ assigned a value that is not a full field snapshot")
                 for f, val in v.items():
